@@ -228,6 +228,310 @@ Example C03_total_nonvacuous :
   map (getf (fn (run_total (fun _ => O) ops))) [0; 1; 2; 3; 4; 7]%nat = [None; None; None; Some 0; None; Some 0].
 Proof. split; vm_compute; reflexivity. Qed.
 
+(* ------------------------------------------------------------------------
+   NON-VACUITY (audit): every theorem of this file with a premise is APPLIED to a concrete
+   instance, so that Coq checks that what is discharged below are the theorem's own premises.
+   Main history c3_ops: five keys over the labels 0..4 (a negative shift, a repeated parent, an
+   empty right-hand side) and an interleaved query of the unknown label 7.  Second history
+   c3_fin: three keys with FINITE non-zero answers (3, 1, 0 terms) and one pumping class. *)
+Require Import Lia.
+Definition c3_ops : list op :=
+  [AddKey (mkkey 0 [(1%nat, 1)]); AddKey (mkkey 1 [(1%nat, 2); (2%nat, -1)]);
+   IsPumping 7; AddKey (mkkey 2 [(3%nat, 3)]); AddKey (mkkey 4 [(0%nat, 0); (4%nat, 1)]);
+   AddKey (mkkey 2 [])].
+(* the same keys in the opposite order, the first key inserted a second time at the end *)
+Definition c3_ops' : list op := rev c3_ops ++ [AddKey (mkkey 0 [(1%nat, 1)])].
+Definition c3_fin : list op :=
+  [AddKey (mkkey 0 [(1%nat, 2)]); AddKey (mkkey 1 [(2%nat, 1)]); AddKey (mkkey 3 [(3%nat, 1)])].
+Definition c3_fin' : list op := AddKey (mkkey 2 [(4%nat, 5)]) :: c3_fin.
+(* another resolution of set.pop() *)
+Definition pickL (l : list nat) : nat := length l.
+
+Definition c3_st : tm := Eval vm_compute in run_total pick0 c3_ops.
+Definition c3_st' : tm := Eval vm_compute in run_total pickL c3_ops'.
+Definition c3_fst : tm := Eval vm_compute in run_total pick0 c3_fin.
+Definition c3_fst' : tm := Eval vm_compute in run_total pickL c3_fin'.
+Lemma c3_run : run pick0 200 init c3_ops = Some c3_st.       Proof. vm_compute. reflexivity. Qed.
+Lemma c3_run' : run pickL 300 init c3_ops' = Some c3_st'.    Proof. vm_compute. reflexivity. Qed.
+Lemma c3_frun : run pick0 200 init c3_fin = Some c3_fst.     Proof. vm_compute. reflexivity. Qed.
+Lemma c3_frun' : run pickL 300 init c3_fin' = Some c3_fst'.  Proof. vm_compute. reflexivity. Qed.
+Example c3_values :
+  map (getf (fn c3_st)) [0; 1; 2; 3; 4; 7]%nat = [None; None; None; Some 0; None; Some 0] /\
+  map (getf (fn c3_fst)) [0; 1; 2; 3; 4]%nat = [Some 3; Some 1; Some 0; None; Some 0] /\
+  map (getf (fn c3_fst')) [0; 1; 2; 3; 4]%nat = [Some 8; Some 6; Some 5; None; Some 0].
+Proof. repeat split. Qed.
+
+(* covers C03_sound_complete: both branches of both equivalences, read off the computed table *)
+Example C03_sound_complete_nonvacuous :
+  pumps (keys_of c3_ops) 1 /\ ~ pumps (keys_of c3_ops) 3 /\
+  terms (keys_of c3_fin) 0 3 /\ ~ terms (keys_of c3_fin) 1 2.
+Proof.
+  split; [apply (C03_sound_complete pick0 200 c3_ops c3_st c3_run 1%nat); reflexivity|].
+  split; [intros P; apply (C03_sound_complete pick0 200 c3_ops c3_st c3_run 3%nat) in P; discriminate|].
+  split; [apply (C03_sound_complete pick0 200 c3_fin c3_fst c3_frun 0%nat); reflexivity|].
+  intros P. apply (C03_sound_complete pick0 200 c3_fin c3_fst c3_frun 1%nat) in P. discriminate.
+Qed.
+
+Lemma c3_same_set : forall r, In r (keys_of c3_ops) <-> In r (keys_of c3_ops').
+Proof. intros r. simpl. tauto. Qed.
+Lemma c3_perm : Permutation (keys_of c3_ops) (keys_of (rev c3_ops)).
+Proof. change (keys_of (rev c3_ops)) with (rev (keys_of c3_ops)). apply Permutation_rev. Qed.
+Lemma c3_incl : incl (keys_of c3_fin) (keys_of c3_fin').
+Proof. intros r H. simpl in *. tauto. Qed.
+
+(* covers C03_order_independent: other order, other multiplicity, other fuel, other set.pop() *)
+Example C03_order_independent_nonvacuous : forall c, getf (fn c3_st) c = getf (fn c3_st') c.
+Proof. exact (C03_order_independent pick0 200 pickL 300 c3_ops c3_ops' c3_st c3_st' c3_run c3_run' c3_same_set). Qed.
+(* the internal states differ (the rule lists are in different orders): the conclusion is about
+   the answers only *)
+Example c3_states_differ : rules c3_st <> rules c3_st'.
+Proof. discriminate. Qed.
+
+(* covers C03_permutation_independent *)
+Example C03_permutation_independent_nonvacuous :
+  exists st', run pickL 300 init (rev c3_ops) = Some st' /\ forall c, getf (fn c3_st) c = getf (fn st') c.
+Proof.
+  eexists. split; [vm_compute; reflexivity|].
+  refine (C03_permutation_independent pick0 200 pickL 300 c3_ops (rev c3_ops) c3_st _ c3_run _ c3_perm).
+  vm_compute. reflexivity.
+Qed.
+
+(* covers C03_monotone: one key added; the finite answers 3, 1, 0 grow to 8, 6, 5 *)
+Example C03_monotone_nonvacuous :
+  forall c, match getf (fn c3_fst) c, getf (fn c3_fst') c with
+            | None, None => True | None, Some _ => False
+            | Some n, Some m => n <= m | Some _, None => True end.
+Proof. exact (C03_monotone pick0 200 pickL 300 c3_fin c3_fin' c3_fst c3_fst' c3_frun c3_frun' c3_incl). Qed.
+(* the conclusion discriminates: the other way round it is false at class 0 (8 > 3) *)
+Example C03_monotone_near_miss :
+  ~ (forall c, match getf (fn c3_fst') c, getf (fn c3_fst) c with
+               | None, None => True | None, Some _ => False
+               | Some n, Some m => n <= m | Some _, None => True end).
+Proof. intros H. specialize (H 0%nat). vm_compute in H. apply H. reflexivity. Qed.
+
+(* covers C03_pumping_subuniverse: key 0 is in (all its classes pump), key 2 = (2 -> 3 shift 3)
+   is out (class 3 has no term) *)
+Example C03_pumping_subuniverse_nonvacuous :
+  pumping_subuniverse c3_st = [0; 1; 3; 4]%nat /\
+  (pumps (keys_of c3_ops) 0 /\ forall c s, In (c, s) [(1%nat, 1)] -> pumps (keys_of c3_ops) c) /\
+  ~ (pumps (keys_of c3_ops) 2 /\ forall c s, In (c, s) [(3%nat, 3)] -> pumps (keys_of c3_ops) c).
+Proof.
+  split; [reflexivity|]. split.
+  - apply (C03_pumping_subuniverse pick0 200 c3_ops c3_st c3_run 0%nat). simpl. auto.
+  - intros H.
+    assert (In 2%nat (pumping_subuniverse c3_st)) as Hin.
+    { apply (C03_pumping_subuniverse pick0 200 c3_ops c3_st c3_run 2%nat). split; [simpl; lia|exact H]. }
+    simpl in Hin. intuition discriminate.
+Qed.
+
+(* C03_function_dict has no premise; it discriminates: classes with 0 terms are left out *)
+Example C03_function_dict_nonvacuous :
+  function_dict c3_fst = [(0%nat, Some 3); (1%nat, Some 1); (3%nat, None)] /\
+  In (1%nat, Some 1) (function_dict c3_fst) /\ ~ In (2%nat, Some 0) (function_dict c3_fst).
+Proof.
+  split; [reflexivity|]. split.
+  - apply C03_function_dict. split; [simpl; lia|]. split; [reflexivity|discriminate].
+  - intros H. apply C03_function_dict in H. destruct H as (_ & _ & H). apply H. reflexivity.
+Qed.
+
+(* covers C03_gap_lemma.  Rules 0 -> (0 shift 1)(3 shift -2), 1 -> (2 shift 1), 3 -> (3 shift 2);
+   table 0:4 1:1 2:0 3:infinite, gap size g = 2, gap [2,3] (k = 2): no value inside the gap, class 1
+   (below the gap) cannot move, class 0 sits at k + g.  The lemma concludes that class 0 pumps. *)
+Definition gl_R : list fkey :=
+  [mkkey 0 [(0%nat, 1); (3%nat, -2)]; mkkey 1 [(2%nat, 1)]; mkkey 3 [(3%nat, 2)]].
+Definition gl_f (c : nat) : option Z :=
+  match c with 0%nat => Some 4 | 1%nat => Some 1 | 3%nat => None | _ => Some 0 end.
+Definition gl_dom (c : nat) : Prop := (c <= 3)%nat.
+Lemma gl_pumps3 : pumps gl_R 3.
+Proof.
+  assert (forall v, 0 <= v -> derivable gl_R 3 v) as H.
+  { intros v Hv. pattern v. apply natlike_ind; auto.
+    - apply der_zero; lia.
+    - intros x Hx D. apply (der_rule gl_R (mkkey 3 [(3%nat, 2)])); [simpl; auto|].
+      intros c s [E|[]]; injection E as <- <-. apply (derivable_mono gl_R 3%nat x D). lia. }
+  intros v. destruct (Z_lt_le_dec v 0); [apply der_zero; lia|auto].
+Qed.
+Lemma gl_step0 : forall v, derivable gl_R 0 (v - 1) -> derivable gl_R 0 v.
+Proof.
+  intros v D. apply (der_rule gl_R (mkkey 0 [(0%nat, 1); (3%nat, -2)])); [simpl; auto|].
+  intros c s [E|[E|[]]]; injection E as <- <-; [exact D|apply gl_pumps3].
+Qed.
+Lemma gl_rules_dom : forall r c s, In r gl_R -> In (c, s) (kids r) -> gl_dom c.
+Proof.
+  unfold gl_dom. intros r c s [<-|[<-|[<-|[]]]] H; simpl in H;
+    repeat (destruct H as [H|H]; [injection H as <- <-; lia|]); destruct H.
+Qed.
+Lemma gl_shifts : forall r c s, In r gl_R -> In (c, s) (kids r) -> - 2 <= s <= 2.
+Proof.
+  intros r c s [<-|[<-|[<-|[]]]] H; simpl in H;
+    repeat (destruct H as [H|H]; [injection H as <- <-; lia|]); destruct H.
+Qed.
+Lemma gl_sound_fin : forall c n, gl_f c = Some n -> derivable gl_R c n.
+Proof.
+  intros [|[|[|[|c]]]] n H; simpl in H; try discriminate; injection H as <-; try (apply der_zero; lia).
+  - do 4 (apply gl_step0; simpl). apply der_zero. lia.
+  - apply (der_rule gl_R (mkkey 1 [(2%nat, 1)])); [simpl; auto|].
+    intros c s [E|[]]; injection E as <- <-. apply der_zero. lia.
+Qed.
+Lemma gl_sound_inf : forall c, gl_f c = None -> pumps gl_R c.
+Proof. intros [|[|[|[|c]]]] H; simpl in H; try discriminate. exact gl_pumps3. Qed.
+Lemma gl_gap_empty : forall c n, gl_dom c -> gl_f c = Some n -> n < 2 \/ 2 + 2 <= n.
+Proof. intros [|[|[|[|c]]]] n _ H; simpl in H; try discriminate; injection H as <-; lia. Qed.
+Lemma gl_nonneg : forall c n, gl_f c = Some n -> 0 <= n.
+Proof. intros [|[|[|[|c]]]] n H; simpl in H; try discriminate; injection H as <-; lia. Qed.
+Lemma gl_low_stable : forall r n, In r gl_R -> gl_f (parent r) = Some n -> n < 2 ->
+  exists c s m, In (c, s) (kids r) /\ gl_f c = Some m /\ m + s <= n.
+Proof.
+  intros r n [<-|[<-|[<-|[]]]] H Hn; simpl in H; try discriminate; injection H as <-; try lia.
+  exists 2%nat, 1, 0. simpl. split; [auto|]. split; [reflexivity|lia].
+Qed.
+Example C03_gap_lemma_nonvacuous : pumps gl_R 0.
+Proof.
+  apply (C03_gap_lemma gl_R gl_f gl_dom 2 2 ltac:(lia) ltac:(lia) gl_rules_dom gl_shifts gl_sound_fin
+           gl_sound_inf gl_gap_empty gl_nonneg gl_low_stable 0%nat 4 eq_refl). lia.
+Qed.
+(* the conclusion is not true of every class with a finite entry: class 1 (value 1, below the
+   gap) does not pump — the premise k + g <= n is what separates the two *)
+Example C03_gap_lemma_near_miss : ~ pumps gl_R 1.
+Proof.
+  intros P. specialize (P 2). inversion P as [|r v Hr Hk E]; [lia|].
+  destruct Hr as [<-|[<-|[<-|[]]]]; try discriminate.
+  specialize (Hk 2%nat 1 (or_introl eq_refl)).
+  apply (derivable_no_rule gl_R 2%nat (2 - 1)) in Hk; [lia|].
+  intros r' [<-|[<-|[<-|[]]]]; discriminate.
+Qed.
+
+(* covers C03_firing_test_is_source: finite parent (2 terms), an infinite child and a finite child;
+   the rule fires with shift 2 on the finite child and does not with shift 1 *)
+Definition ft_f : vals := [Some 2; None; Some 0; Some 1].
+Example C03_firing_test_is_source_nonvacuous :
+  ForestCanGiveTerms.can_give_terms
+    (ForestComputeShift.compute_shift (getf ft_f 0) [getf ft_f 1; getf ft_f 3] [-3; 2]) = true /\
+  ForestCanGiveTerms.can_give_terms
+    (ForestComputeShift.compute_shift (getf ft_f 0) [getf ft_f 1; getf ft_f 3] [-3; 1]) = false.
+Proof.
+  split.
+  - transitivity (can_fire ft_f (mkkey 0 [(1%nat, -3); (3%nat, 2)])); [|reflexivity].
+    symmetry. exact (C03_firing_test_is_source ft_f (mkkey 0 [(1%nat, -3); (3%nat, 2)]) 2 eq_refl).
+  - transitivity (can_fire ft_f (mkkey 0 [(1%nat, -3); (3%nat, 1)])); [|reflexivity].
+    symmetry. exact (C03_firing_test_is_source ft_f (mkkey 0 [(1%nat, -3); (3%nat, 1)]) 2 eq_refl).
+Qed.
+
+(* C03_gap_search_is_source has no premise; the common value depends on the table and on g *)
+Example C03_gap_search_is_source_nonvacuous :
+  let f := [Some 0; Some 1; Some 3; None; Some 1] in
+  map (ForestPreimageGap.preimage_gap (hist f)) [1; 2; 3] = [2; 4; 4] /\
+  map (Model.preimage_gap f) [1; 2; 3] = [2; 4; 4].
+Proof. split; reflexivity. Qed.
+
+(* covers C03_terminates, C03_run_total, C03_fuel_irrelevant, C03_fuel_monotone *)
+Example C03_terminates_nonvacuous : exists st, run pickL (S (fuel_bound c3_ops')) init c3_ops' = Some st.
+Proof. apply (C03_terminates pickL c3_ops' (S (fuel_bound c3_ops'))). apply Nat.le_succ_diag_r. Qed.
+(* ... and below the bound the run can really fail: the existential is not met by a default *)
+Example C03_terminates_value :
+  fuel_bound c3_ops = 3715%nat /\ run pick0 3715 init c3_ops = Some c3_st /\ run pick0 5 init c3_ops = None.
+Proof. repeat split; vm_compute; reflexivity. Qed.
+Example C03_run_total_nonvacuous : run pickL (S (fuel_bound c3_ops')) init c3_ops' = Some (run_total pickL c3_ops').
+Proof. apply (C03_run_total pickL c3_ops' (S (fuel_bound c3_ops'))). apply Nat.le_succ_diag_r. Qed.
+Example C03_fuel_irrelevant_nonvacuous : c3_st' = run_total pickL c3_ops'.
+Proof. exact (C03_fuel_irrelevant pickL 300 c3_ops' c3_st' c3_run'). Qed.
+(* from a NON-initial state: the state after the first three operations, the last three run on it *)
+Definition c3_mid : tm := Eval vm_compute in run_total pick0 (firstn 3 c3_ops).
+Lemma c3_mid_run : run pick0 40 c3_mid (skipn 3 c3_ops) = Some c3_st.
+Proof. vm_compute. reflexivity. Qed.
+Example C03_fuel_monotone_nonvacuous : run pick0 4000 c3_mid (skipn 3 c3_ops) = Some c3_st.
+Proof.
+  apply (C03_fuel_monotone pick0 40 4000 (skipn 3 c3_ops) c3_mid c3_st c3_mid_run).
+  apply Nat.leb_le. reflexivity.
+Qed.
+Example C03_fuel_monotone_near_miss : run pick0 10 c3_mid (skipn 3 c3_ops) = None.
+Proof. vm_compute. reflexivity. Qed.
+
+(* covers C03_iteration_decreases and C03_process_terminates.  The state is the one add_rule_key
+   hands to _process_queue when the key 2 -> () is inserted after the first five operations: a
+   reachable, non-final state (non-empty queue); its loop invariant is PROVED, not assumed. *)
+Definition c3_before : tm := Eval vm_compute in run_total pick0 (firstn 5 c3_ops).
+Definition c3_pre : tm := Eval vm_compute in pre_process c3_before (mkkey 2 []).
+Definition c3_s1 : tm := Eval vm_compute in match pstep pick0 c3_pre with Some s => s | None => init end.
+Definition c3_s2 : tm := Eval vm_compute in match pstep pick0 c3_s1 with Some s => s | None => init end.
+Lemma c3_pre_TInv : TInv c3_pre.
+Proof.
+  assert (run pick0 200 init (firstn 5 c3_ops) = Some c3_before) as Hr by (vm_compute; reflexivity).
+  destruct (run_init_rules _ _ _ _ Hr) as [F _].
+  assert (GapBound c3_before) as HB by (unfold GapBound; vm_compute; discriminate).
+  destruct (pre_process_inv c3_before (mkkey 2 []) F) as [I3 _].
+  destruct (pre_process_fields c3_before (mkkey 2 []) F HB) as (_ & _ & Eh & _ & HB3).
+  change (pre_process c3_before (mkkey 2 [])) with c3_pre in *.
+  split; [exact I3|]. split; [rewrite Eh; constructor|exact HB3].
+Qed.
+Lemma c3_step1 : pstep pick0 c3_pre = Some c3_s1.  Proof. vm_compute. reflexivity. Qed.
+Lemma c3_step2 : pstep pick0 c3_s1 = Some c3_s2.   Proof. vm_compute. reflexivity. Qed.
+Example C03_iteration_decreases_nonvacuous :
+  TInv c3_s2 /\ Same c3_pre c3_s1 /\ Same c3_s1 c3_s2 /\ 0 <= mu c3_s2 < mu c3_s1 /\ mu c3_s1 < mu c3_pre.
+Proof.
+  destruct (C03_iteration_decreases pick0 c3_pre c3_s1 c3_pre_TInv c3_step1) as (T1 & S1 & M1).
+  destruct (C03_iteration_decreases pick0 c3_s1 c3_s2 T1 c3_step2) as (T2 & S2 & M2).
+  split; [exact T2|]. split; [exact S1|]. split; [exact S2|]. split; [exact M2|apply M1].
+Qed.
+Example C03_iteration_decreases_values :
+  queue c3_pre = [4%nat] /\ queue c3_s1 = [1%nat; 4%nat] /\ queue c3_s2 = [4%nat; 0%nat] /\
+  (mu c3_pre, mu c3_s1, mu c3_s2) = (3538, 3524, 3508) /\
+  getf (fn c3_pre) 2 = Some 3 /\ getf (fn c3_s1) 2 = Some 4 /\ getf (fn c3_s2) 1 = Some 3.
+Proof. repeat split. Qed.
+Example C03_process_terminates_nonvacuous : exists st', process pick0 4000 c3_pre = Some st'.
+Proof. apply (C03_process_terminates pick0 4000 c3_pre c3_pre_TInv). vm_compute. reflexivity. Qed.
+Example C03_process_terminates_value :
+  process pick0 4000 c3_pre = Some c3_st /\ process pick0 3 c3_pre = None.
+Proof. split; vm_compute; reflexivity. Qed.
+
+(* covers C03_gap_start_bounded (g = 2, five entries: bound 10, value 4) *)
+Example C03_gap_start_bounded_nonvacuous :
+  Model.preimage_gap [Some 0; Some 1; Some 3; None; Some 1] 2 <= 5 * 2.
+Proof. apply (C03_gap_start_bounded [Some 0; Some 1; Some 3; None; Some 1] 2). lia. Qed.
+
+(* covers the total forms *)
+Example C03_total_sound_complete_nonvacuous :
+  pumps (keys_of c3_ops') 4 /\ ~ pumps (keys_of c3_ops') 3 /\ terms (keys_of c3_fin') 1 6.
+Proof.
+  split; [apply (C03_total_sound_complete pickL c3_ops' 4%nat); vm_compute; reflexivity|].
+  split; [intros P; apply (C03_total_sound_complete pickL c3_ops' 3%nat) in P; vm_compute in P; discriminate|].
+  apply (C03_total_sound_complete pickL c3_fin' 1%nat). vm_compute. reflexivity.
+Qed.
+Example C03_total_order_independent_nonvacuous :
+  forall c, getf (fn (run_total pick0 c3_ops)) c = getf (fn (run_total pickL c3_ops')) c.
+Proof. exact (C03_total_order_independent pick0 pickL c3_ops c3_ops' c3_same_set). Qed.
+Example C03_total_monotone_nonvacuous :
+  forall c, match getf (fn (run_total pick0 c3_fin)) c, getf (fn (run_total pickL c3_fin')) c with
+            | None, None => True | None, Some _ => False
+            | Some n, Some m => n <= m | Some _, None => True end.
+Proof. exact (C03_total_monotone pick0 pickL c3_fin c3_fin' c3_incl). Qed.
+Example C03_total_pumping_subuniverse_nonvacuous :
+  pumps (keys_of c3_ops) 4 /\ forall c s, In (c, s) [(0%nat, 0); (4%nat, 1)] -> pumps (keys_of c3_ops) c.
+Proof.
+  assert (In 3%nat (pumping_subuniverse (run_total pick0 c3_ops))) as H by (vm_compute; auto).
+  exact (proj2 (proj1 (C03_total_pumping_subuniverse pick0 c3_ops 3%nat) H)).
+Qed.
+(* C03_fuel_bound_explicit and C03_loop_is_pstep have no premise; their instances on the history
+   (5 keys, largest label 7, largest shift 3) and on the reachable state c3_pre (both branches of
+   the loop: an iteration, and the exit from a final state) *)
+Example C03_fuel_bound_explicit_nonvacuous :
+  Z.of_nat (fuel_bound c3_ops) = (3 * 5 + 1) * ((7 + 1) * ((7 + 1 + 1) * 3 + 2)) + 3.
+Proof. exact (C03_fuel_bound_explicit c3_ops). Qed.
+Example C03_loop_is_pstep_nonvacuous :
+  process pick0 8 c3_pre = process pick0 7 c3_s1 /\ process pick0 1 c3_st = Some c3_st.
+Proof.
+  split.
+  - rewrite (C03_loop_is_pstep pick0 7 c3_pre), c3_step1. reflexivity.
+  - rewrite (C03_loop_is_pstep pick0 0 c3_st). reflexivity.
+Qed.
+(* C03_harness_never_out_of_fuel has no premise; what the harness observes on c3_fin: *)
+Example C03_harness_never_out_of_fuel_nonvacuous :
+  ~ In (L [I (-1)]) (run_obs (fuel_for c3_fin) init c3_fin).
+Proof. exact (C03_harness_never_out_of_fuel c3_fin). Qed.
+Example C03_harness_obs_value :
+  length (run_obs (fuel_for c3_fin) init c3_fin) = 3%nat /\ run_obs 1 init c3_fin = [L [I (-1)]].
+Proof. split; vm_compute; reflexivity. Qed.
+
 Print Assumptions C03_sound_complete.
 Print Assumptions C03_order_independent.
 Print Assumptions C03_permutation_independent.
